@@ -771,6 +771,9 @@ class Buffer:
         deleted = ""
 
         if self.cursor_position > 0:
+            # Never delete more than what's available before the cursor.
+            # (A negative slice start would wrap around.)
+            count = min(count, self.cursor_position)
             deleted = self.text[self.cursor_position - count : self.cursor_position]
 
             new_text = (
